@@ -588,9 +588,21 @@ func GenProgram(t *rapid.T, prof *Profile, doc Doc) *Program {
 		}
 		for _, s := range p.Steps {
 			if s.Kind != "plugin" {
+				if s.Kind == "foreach" && g.pct(30, "loop_failed_optional") {
+					// the error path of a loop: absent exactly when the loop did not fail
+					fields = append(fields, F("wf_"+s.ID, Opt("wait-optional", StepRef(s.ID, "failed", "error", "errors"))))
+				}
 				continue
 			}
-			switch rapid.IntRange(0, 7).Draw(t, "out_tag") {
+			switch rapid.IntRange(0, 8).Draw(t, "out_tag") {
+			case 7:
+				// an error-path stage of a step that (in these profiles) never takes it: once the step has
+				// ended another way the field is absent
+				if prof.PBad == 0 && prof.PDeployFail == 0 {
+					stage := rapid.SampledFrom([]string{"crashed", "deploy_failed", "closed"}).Draw(t, "error_path_stage")
+					out := map[string]string{"crashed": "error", "deploy_failed": "error", "closed": "result"}[stage]
+					fields = append(fields, F("wx_"+s.ID, Opt("wait-optional", StepRef(s.ID, stage, out))))
+				}
 			case 0:
 				fields = append(fields, F("w_"+s.ID, Opt("wait-optional", StepRef(s.ID, "outputs", "success", "a"))))
 			case 1:
